@@ -34,10 +34,11 @@ class Gen:
         self.rng, self.budget, self.rich, self.weird = rng, size, rich, weird
         self.nfile = 0
         self.nfun = 0
+        self.async_ok = False       # `&` items only in the top-level brace group (so that `wait` sees them)
         self.norun = False          # behaviour is not deterministic (coproc)
         # a multi-line word on a line that has a pending here-document is a source-level hazard
         # (where the document starts); one tree uses here-documents or multi-line words, not both
-        self.hd_ok = rng.random() < 0.5
+        self.hd_ok = rng.random() < 0.2
 
     def chance(self, p):
         return self.rng.random() < p
@@ -58,22 +59,29 @@ class Gen:
     def fd(self):
         return self.rng.choice([None, None, None, 1, 2, 2, 3]) if self.chance(0.5) else None
 
+    def ofile(self):
+        """a fresh output file per redirect (stages of a pipeline run concurrently: never two writers per file)"""
+        if self.chance(0.25):
+            return "/dev/null"
+        self.nfile += 1
+        return "o%d" % self.nfile
+
     def redir(self, inp_ok=True):
         rng = self.rng
         r = rng.random()
         if r < 0.35:
             kind = rng.choice([">", ">>", ">|", ">", ">>"])
             fd = rng.choice([None, None, 1, 2])
-            return ("file", fd, kind, ("w", rng.choice(FILES)))
+            return ("file", fd, kind, ("w", self.ofile()))
         if r < 0.55:
             k = rng.choice([(2, ">&", "1"), (1, ">&", "2"), (None, ">&", "2"), (None, "<&", "0"), (2, ">&", "-"), (3, ">&", "1")])
             return ("file", k[0], k[1], ("w", k[2]))
         if r < 0.63:
             return ("file", rng.choice([None, 0]), "<", ("w", "/dev/null"))
         if r < 0.68:
-            return ("file", 3, "<>", ("w", "o3"))
+            return ("file", 3, "<>", ("w", self.ofile()))
         if r < 0.75:
-            return ("oe", self.chance(0.4), rng.choice(FILES))
+            return ("oe", self.chance(0.4), self.ofile())
         if r < 0.83:
             return ("hs", rng.choice([None, None, 0]), self.word(False))
         if r < 0.93 and not self.hd_ok:
@@ -85,11 +93,28 @@ class Gen:
             lines = [rng.choice(["h $x", "text", "  sp", "\tt", "a;b > c", "$(echo s)"]) for _ in range(nl)]
             return ("hd", rng.choice([None, None, 0]), strip, delim, "".join(l + "\n" for l in lines))
         if self.hd_ok:      # a process substitution after a pending here-document tag: source-level hazard
-            return ("file", None, ">", ("w", "o1"))
+            return ("file", None, ">", ("w", self.ofile()))
         self.budget -= 1
+        self.norun = True   # process substitutions run asynchronously: what they write is not ordered
         if rng.random() < 0.5:
             return ("file", None, "<", ("ps", "<", self.lst_sf(1)))
-        return ("file", None, ">", ("ps", ">", [item1(("simple", [], "cat", [("r", ("file", None, ">>", ("w", "o2")))]))]))
+        return ("file", None, ">", ("ps", ">", [item1(("simple", [], "cat", [("r", ("file", None, ">>", ("w", self.ofile())))]))]))
+
+    def redirs_comp(self):
+        """redirect list of a compound command: mostly fd-less (those print re-readably today)"""
+        if not self.chance(0.3):
+            return []
+        if self.chance(0.2 * self.weird):
+            return self.redirs(0.7, 3) or [("file", 2, ">&", ("w", "1"))]
+        out = []
+        for _ in range(self.rng.randint(1, 2)):
+            r = self.redir()
+            if r[0] in ("file", "hs", "hd") and r[1] is not None:
+                r = (r[0], None) + tuple(r[2:])
+            if r[0] == "file" and r[3][0] == "w" and r[3][1].isdigit():
+                r = ("file", None, ">>", ("w", self.ofile()))
+            out.append(r)
+        return out
 
     def redirs(self, p=0.3, maxn=3):
         out = []
@@ -115,6 +140,7 @@ class Gen:
                     suf.insert(rng.randint(0, len(suf)), ("r", r))
             if self.chance(0.05 * self.weird) and not self.hd_ok:
                 self.budget -= 1
+                self.norun = True
                 suf.append(("ps", "<", self.lst_sf(1)))
                 name = "cat"
             if name in ("echo", "p") and self.chance(0.03):
@@ -133,15 +159,24 @@ class Gen:
         self.budget -= 1
         if self.chance(0.05):
             self.nfun += 1
-            return ("fdef", "g%d" % self.nfun, self.compound(depth + 1, body=True), self.redirs(0.15, 2))
-        return ("comp", self.compound(depth + 1), self.redirs(0.3, 3))
+            return ("fdef", "g%d" % self.nfun, self.compound(depth + 1, body=True), self.redirs_comp() if self.chance(0.3) else [])
+        return ("comp", self.compound(depth + 1), self.redirs_comp())
 
     def pipeline(self, depth):
         rng = self.rng
         timed = rng.choice([1, 2]) if self.chance(0.05) else 0
         bang = self.chance(0.08)
         n = 1 if self.chance(0.8) else rng.randint(2, 3)
-        return (timed, bang, [self.cmd(depth) for _ in range(n)])
+        seq = [self.cmd(depth) for _ in range(n)]
+        for k in range(1, n):
+            # a later stage that never reads its input makes the earlier one race against SIGPIPE:
+            # simple stages use the draining helpers pc/nc; otherwise behaviour is not compared
+            c = seq[k]
+            if c[0] == "simple" and c[2] in ("p", "n", "echo", "true", "false", ":"):
+                seq[k] = ("simple", c[1], "pc" if c[2] in ("p", "echo", "true", ":") else "nc", c[3])
+            elif not (c[0] == "simple" and c[2] == "cat"):
+                self.norun = True
+        return (timed, bang, seq)
 
     def andor(self, depth):
         first = self.pipeline(depth)
@@ -154,7 +189,7 @@ class Gen:
         n = 1 if self.budget <= 0 else self.rng.randint(1, maxn)
         out = []
         for _ in range(n):
-            if allow_async and self.chance(0.05):
+            if allow_async and self.async_ok and depth == 1 and self.chance(0.12):
                 out.append(item1(self.leaf_async(), "&"))
             else:
                 out.append((self.andor(depth), ";"))
@@ -175,7 +210,7 @@ class Gen:
         rng = self.rng
         kinds = ["brace", "brace", "sub", "for", "case", "if", "if", "while", "until", "arith", "afor", "test"]
         if body:
-            kinds = ["brace"] * 8 + ["sub", "if", "for", "while", "case"]
+            kinds = ["brace"] * 30 + ["sub", "if", "for", "while", "case"]
         elif self.chance(0.02 * self.weird):
             kinds = ["coproc"]
         k = rng.choice(kinds)
@@ -222,7 +257,12 @@ class Gen:
         raise AssertionError(k)
 
     def fdef(self):
-        return ("fdef", "f", self.compound(1, body=True), self.redirs(0.1, 2))
+        if self.chance(0.7):
+            self.async_ok = True
+            body = ("brace", self.lst(1))
+            self.async_ok = False
+            return ("fdef", "f", body, self.redirs_comp() if self.chance(0.2) else [])
+        return ("fdef", "f", self.compound(1, body=True), self.redirs_comp() if self.chance(0.2) else [])
 
 
 # ------------------------------------------------------------------------------------------------
@@ -535,14 +575,17 @@ def features(fdef):
     """returns a set of feature names"""
     fs = set()
 
-    def redirs_compound(rs, tag):
+    def redirs_compound(rs, ind):
         # redirect list of a compound command / function body: written with no blank before or between
         if any(has_fd(r) for r in rs):
             fs.add("compound_redirect_fd")
         elif rs:
             fs.add("compound_redirect_plain")
+        if any((r[0] == "file" and r[3][0] == "w" and r[3][1].isdigit()) or (r[0] in ("oe", "hs") and r[2].isdigit())
+               for r in rs[:-1]):
+            fs.add("compound_redirect_digits")
         for r in rs:
-            redir(r, 0, True)
+            redir(r, ind, True)
 
     def has_fd(r):
         return r[0] in ("file", "hs", "hd") and r[1] is not None
@@ -579,11 +622,11 @@ def features(fdef):
                 word(c[2], ind)
         elif c[0] == "comp":
             compound(c[1], ind)
-            redirs_compound(c[2], "comp")
+            redirs_compound(c[2], ind)
         else:
             fs.add("nested_function")
             compound(c[2], ind)
-            redirs_compound(c[3], "fdef")
+            redirs_compound(c[3], ind)
 
     def lst(l, ind):
         for ao, sep in l:
@@ -592,8 +635,12 @@ def features(fdef):
                     fs.add("time")
                 if p[1]:
                     fs.add("bang")
-                for c in p[2]:
+                for k, c in enumerate(p[2]):
                     cmd(c, ind)
+                    if k > 0 and c[0] == "simple":
+                        its = c[1] + ([] if c[2] is not None else c[3])
+                        if its and its[0][0] == "r" and its[0][1][0] == "oe":
+                            fs.add("pipe_amp_redirect")
 
     def compound(c, ind):
         k = c[0]
@@ -631,7 +678,7 @@ def features(fdef):
             cmd(c[2], ind)
 
     compound(fdef[2], 0)
-    redirs_compound(fdef[3], "top")
+    redirs_compound(fdef[3], 0)
     if fdef[2][0] != "brace":
         fs.add("body_not_brace")
     return fs
